@@ -4,9 +4,9 @@
    cancel the parent context at any point of the schedule. *)
 From Coq Require Import List NArith Arith Bool.
 From DS Require Import Base.Bytes Base.Hash Base.Sched Model.Pool Model.VerifyIndex Model.Cancel Model.BulkWrite
-     Model.UnTarIndex Model.ExtractTmp
+     Model.UnTarIndex Model.ExtractTmp Model.CtxBound
      Proofs.PoolProofs Proofs.VerifyIndexProofs Proofs.CancelProofs Proofs.BulkWriteProofs
-     Proofs.UnTarIndexProofs Proofs.ExtractTmpProofs.
+     Proofs.UnTarIndexProofs Proofs.ExtractTmpProofs Proofs.CtxBoundProofs.
 Import ListNotations.
 
 (* The feeder/worker skeleton after the fix (interrupted flag): for every job count, job body,
@@ -93,6 +93,25 @@ Theorem C07_bulk_prefix_refuted : forall H mode jobs src fault store0, 0 < lengt
     b_store s = store0 /\ b_done s = [].
 Proof. exact bulk_prefix_refuted_first. Qed.
 Print Assumptions C07_bulk_prefix_refuted.
+
+(* Context-bound stores (Model/CtxBound.v): a request that is in flight when the context is cancelled, and
+   every later one, fails.  Such a failure is a delivered failure and surfaces as an error -- also when the
+   CALLER cancelled, no sibling error is recorded and every job had already been handed out -- and nil still
+   means complete, for every schedule and cancellation point. *)
+Theorem C07_ctxbound_fail_reported : forall H mode jobs src fault can_cancel store0 nw sched,
+  let s := run (cb_step H mode jobs src fault can_cancel) sched (binit store0 nw) in
+  bfinal s = true -> 0 < b_hits s -> bulk_result s = RErr.
+Proof. exact cb_fail_reported. Qed.
+Print Assumptions C07_ctxbound_fail_reported.
+
+Theorem C07_ctxbound_complete : forall H mode jobs src fault can_cancel store0 nw sched,
+  store_ok H store0 -> (mode = MCopy -> src_ok H src) ->
+  let s := run (cb_step H mode jobs src fault can_cancel) sched (binit store0 nw) in
+  bfinal s = true -> bulk_result s = RNil ->
+  forall k, k < njobs jobs ->
+    exists b, lookup (b_store s) (jid H mode jobs k) = Some b /\ H b = jid H mode jobs k.
+Proof. exact cb_complete. Qed.
+Print Assumptions C07_ctxbound_complete.
 
 (* Plan.Validate: nil means every file-seed segment of the plan was validated. *)
 Theorem C07_validate_cancel_sound : forall plan nw sched,
@@ -222,4 +241,15 @@ Example C07_example_untarindex_fetch_error :
   let s := run (ustep 2 (fun k => 2 - k) (fun k => k =? 0) (fun p => p =? 3) (fun _ => true) 1 true true)
              ex_usched (uinit 1) in
   ufinal s = true /\ untar_result s = RErr.
+Proof. vm_compute. repeat split; reflexivity. Qed.
+
+(* Copy with context-bound stores: both ids are handed out, the feeder has left its loop (not interrupted), the
+   caller cancels, the two downloads in flight fail: the result is an error, not nil (a worker that swallowed
+   the failure because ctx.Err() != nil -- seeded mutant C07-4 -- would make it nil with both chunks missing). *)
+Example C07_example_ctxbound_inflight_failure :
+  let src := fun i => if N.eqb i 3%N then Some [1; 2]%N else if N.eqb i 7%N then Some [3; 4]%N else None in
+  let s := run (cb_step (fun b => fold_right N.add 0%N b) MCopy [(3%N, []); (7%N, [])] src (fun _ _ => false) true)
+             [BWorker 0; BWorker 1; BFeeder; BWorker 0; BWorker 1; BCancel;
+              BWorker 0; BWorker 1; BWorker 0; BWorker 1; BWorker 0; BWorker 1] (binit [] 2) in
+  bfinal s = true /\ b_feeder s = Stopped false /\ bulk_result s = RErr /\ b_hits s = 2 /\ b_store s = [].
 Proof. vm_compute. repeat split; reflexivity. Qed.
